@@ -1,4 +1,311 @@
 package main
 
-// extraSuite dispatches suites defined in other files (concurrency, allocations, …).
-func extraSuite(name string, g *gen, e *emitter, n int) bool { return false }
+import (
+	"net/http"
+	"reflect"
+	"slices"
+	"strings"
+
+	"github.com/jub0bs/cors"
+)
+
+// extraSuite dispatches suites defined in this file: relational ("pair") checks whose verdict is
+// computed on the Go side by comparing two executions of the real code with each other. The model's
+// answer to every pair line is the constant "ok": that is what the corresponding theorem says.
+func extraSuite(name string, g *gen, e *emitter, n int) bool {
+	switch name {
+	case "pairs10":
+		for i := 0; i < n; {
+			c := g.config(100)
+			if _, err := cors.NewMiddleware(c); err != nil {
+				continue
+			}
+			for j := 0; j < 6 && i < n; j++ {
+				pairC10(g, e, c, g.p(40), g.request(&c))
+				i++
+			}
+		}
+	case "pairs09":
+		for i := 0; i < n; {
+			c := g.config(100)
+			if _, err := cors.NewMiddleware(c); err != nil {
+				continue
+			}
+			for j := 0; j < 6 && i < n; j++ {
+				pairC09(e, c, g.request(&c))
+				i++
+			}
+		}
+	case "twins":
+		for i := 0; i < n; {
+			c := g.config(100)
+			if _, err := cors.NewMiddleware(c); err != nil {
+				continue
+			}
+			t := g.twin(c)
+			for j := 0; j < 5 && i < n; j++ {
+				pairTwin(e, c, t, g.p(40), g.request(&c))
+				i++
+			}
+		}
+	case "roundtrip":
+		for i := 0; i < n; {
+			c := g.config(100)
+			if _, err := cors.NewMiddleware(c); err != nil {
+				continue
+			}
+			var rqs []request
+			for j := 0; j < 5; j++ {
+				rqs = append(rqs, g.request(&c))
+			}
+			roundTrip(e, c, rqs)
+			i++
+		}
+	default:
+		return false
+	}
+	return true
+}
+
+// response of one request, in a comparable form
+type response struct {
+	out string // status \t next \t headers \t flags
+}
+
+func respond(c cors.Config, debug bool, rq request) string {
+	return guard(func() string {
+		m, err := cors.NewMiddleware(c)
+		if err != nil {
+			return "cfgerr"
+		}
+		m.SetDebug(debug)
+		return runRequest(m, rq)
+	})
+}
+
+func lookup(m []kv, k string) ([]string, bool) {
+	for _, e := range m {
+		if e.k == k {
+			return e.v, true
+		}
+	}
+	return nil, false
+}
+
+// addedVaryNames: the header names listed in the Vary values beyond those pre-set.
+func addedVaryNames(out string, pre []kv) map[string]bool {
+	names := map[string]bool{}
+	f := strings.Split(out, "\t")
+	if len(f) < 3 {
+		return names
+	}
+	hdrs := decKVs(f[2])
+	vary, _ := lookup(hdrs, "Vary")
+	preVary, _ := lookup(pre, "Vary")
+	if len(vary) >= len(preVary) {
+		vary = vary[len(preVary):]
+	}
+	for _, v := range vary {
+		if v == "X-Inner" {
+			continue
+		}
+		for _, n := range strings.Split(v, ",") {
+			names[http.CanonicalHeaderKey(strings.TrimSpace(n))] = true
+		}
+	}
+	return names
+}
+
+// pairC10: r2 keeps the method and every header listed in the Vary of the first response and
+// changes everything else; both responses must be equal.
+func pairC10(g *gen, e *emitter, c cors.Config, debug bool, r1 request) {
+	out1 := respond(c, debug, r1)
+	names := addedVaryNames(out1, r1.pre)
+	r2 := request{method: r1.method, pre: r1.pre}
+	all := []string{"Origin", "Access-Control-Request-Method", "Access-Control-Request-Headers", "Access-Control-Request-Private-Network", "X-Unrelated"}
+	alt := g.request(&c)
+	for _, k := range all {
+		v1, ok1 := lookup(r1.hdrs, k)
+		if names[k] {
+			if ok1 {
+				r2.hdrs = append(r2.hdrs, kv{k, v1})
+			}
+			continue
+		}
+		// not listed: change it (other value, absent, or added)
+		switch g.n(3) {
+		case 0: // absent
+		case 1:
+			if v2, ok2 := lookup(alt.hdrs, k); ok2 {
+				r2.hdrs = append(r2.hdrs, kv{k, v2})
+			} else if k == "Origin" {
+				r2.hdrs = append(r2.hdrs, kv{k, []string{g.originValue(&c)}})
+			}
+		default:
+			if k == "Origin" {
+				r2.hdrs = append(r2.hdrs, kv{k, []string{g.originValue(&c)}})
+			} else {
+				r2.hdrs = append(r2.hdrs, kv{k, []string{"GET"}})
+			}
+		}
+	}
+	pairC10Case(e, c, debug, r1, r2)
+}
+
+func pairC10Case(e *emitter, c cors.Config, debug bool, r1, r2 request) {
+	line := "pair\tC10\t" + encConfig(&c) + "\t" + encBool(debug) + "\t" + encBytes(r1.method) + "\t" + encKVs(r1.hdrs) + "\t" + encKVs(r1.pre) + "\t" + encKVs(r2.hdrs)
+	out1 := respond(c, debug, r1)
+	// the hypothesis of the property: same method, agreement on every header named in the first response's Vary
+	names := addedVaryNames(out1, r1.pre)
+	for k := range names {
+		v1, ok1 := lookup(r1.hdrs, k)
+		v2, ok2 := lookup(r2.hdrs, k)
+		if ok1 != ok2 || !slices.Equal(v1, v2) || (v1 == nil) != (v2 == nil) {
+			e.emit(line, "ok") // hypothesis not met: nothing to check
+			return
+		}
+	}
+	out2 := respond(c, debug, request{method: r1.method, hdrs: r2.hdrs, pre: r1.pre})
+	if out1 == out2 {
+		e.emit(line, "ok")
+	} else {
+		e.emit(line, "C10-PAIR-DIFFERS first="+out1+" second="+out2)
+	}
+}
+
+func isPreflight(rq request) bool {
+	o, _ := lookup(rq.hdrs, "Origin")
+	m, _ := lookup(rq.hdrs, "Access-Control-Request-Method")
+	return rq.method == "OPTIONS" && len(o) > 0 && len(m) > 0
+}
+
+// pairC09: on a request that is not a preflight the debug flag must not matter.
+func pairC09(e *emitter, c cors.Config, rq request) {
+	line := "pair\tC09\t" + encConfig(&c) + "\t" + encBytes(rq.method) + "\t" + encKVs(rq.hdrs) + "\t" + encKVs(rq.pre)
+	if isPreflight(rq) {
+		// debug may only change diagnostics; the handler must not be reached in either mode
+		on, off := respond(c, true, rq), respond(c, false, rq)
+		fo, ff := strings.Split(on, "\t"), strings.Split(off, "\t")
+		if len(fo) > 1 && len(ff) > 1 && fo[1] == "0" && ff[1] == "0" {
+			e.emit(line, "ok")
+		} else {
+			e.emit(line, "C09-PREFLIGHT-REACHED-HANDLER on="+on+" off="+off)
+		}
+		return
+	}
+	on, off := respond(c, true, rq), respond(c, false, rq)
+	if on == off {
+		e.emit(line, "ok")
+	} else {
+		e.emit(line, "C09-DEBUG-CHANGES-NON-PREFLIGHT on="+on+" off="+off)
+	}
+}
+
+// twin applies the transformations C15 declares irrelevant.
+func (g *gen) twin(c cors.Config) cors.Config {
+	t := c
+	perm := func(s []string) []string {
+		s = slices.Clone(s)
+		g.r.Shuffle(len(s), func(i, j int) { s[i], s[j] = s[j], s[i] })
+		if len(s) > 0 && g.p(40) {
+			s = append(s, s[g.n(len(s))])
+		}
+		return s
+	}
+	recase := func(s []string) []string {
+		for i := range s {
+			switch g.n(3) {
+			case 0:
+				s[i] = strings.ToLower(s[i])
+			case 1:
+				s[i] = strings.ToUpper(s[i])
+			}
+		}
+		return s
+	}
+	t.Origins = perm(c.Origins)
+	t.Methods = perm(c.Methods)
+	normalised := map[string]bool{"DELETE": true, "GET": true, "HEAD": true, "OPTIONS": true, "POST": true, "PUT": true}
+	for i, m := range t.Methods {
+		if normalised[strings.ToUpper(m)] {
+			switch g.n(3) {
+			case 0:
+				t.Methods[i] = strings.ToLower(m)
+			case 1:
+				t.Methods[i] = strings.ToUpper(m)
+			}
+		}
+	}
+	if g.p(30) {
+		t.Methods = append(t.Methods, pick(g, []string{"GET", "HEAD", "POST", "get", "Post"}))
+	}
+	t.RequestHeaders = recase(perm(c.RequestHeaders))
+	t.ResponseHeaders = recase(perm(c.ResponseHeaders))
+	if g.p(30) {
+		t.ResponseHeaders = append(t.ResponseHeaders, pick(g, []string{"Cache-Control", "content-type", "Expires", "Pragma", "Last-Modified", "Content-Language", "CONTENT-LENGTH"}))
+	}
+	return t
+}
+
+func pairTwin(e *emitter, c, t cors.Config, debug bool, rq request) {
+	line := "pair\tC15\t" + encConfig(&c) + "\t" + encConfig(&t) + "\t" + encBool(debug) + "\t" + encBytes(rq.method) + "\t" + encKVs(rq.hdrs) + "\t" + encKVs(rq.pre)
+	a, b := respond(c, debug, rq), respond(t, debug, rq)
+	if a == b {
+		e.emit(line, "ok")
+	} else {
+		e.emit(line, "C15-TWINS-DIFFER first="+a+" twin="+b)
+	}
+}
+
+// roundTrip: C06. Three middlewares (from c, from Config() of the first, zero value reconfigured with &c)
+// answer a request suite identically in both debug modes; Reconfigure(Config()) succeeds and changes nothing;
+// Config() is stable after one round trip.
+func roundTrip(e *emitter, c cors.Config, rqs []request) {
+	parts := []string{"pair", "C06", encConfig(&c)}
+	for _, rq := range rqs {
+		parts = append(parts, encBytes(rq.method)+"\x1f"+encKVs(rq.hdrs)+"\x1f"+encKVs(rq.pre))
+	}
+	line := strings.Join(parts, "\t")
+	e.emit(line, guard(func() string {
+		m1, err := cors.NewMiddleware(c)
+		if err != nil {
+			return "ok" // not an accepted configuration: nothing to check
+		}
+		cfg1 := m1.Config()
+		m2, err := cors.NewMiddleware(*cfg1)
+		if err != nil {
+			return "C06-CONFIG-RESULT-REJECTED " + err.Error()
+		}
+		m3 := new(cors.Middleware)
+		cc := c
+		if err := m3.Reconfigure(&cc); err != nil {
+			return "C06-ZERO-RECONFIGURE-REJECTED " + err.Error()
+		}
+		m4, _ := cors.NewMiddleware(c)
+		if err := m4.Reconfigure(m4.Config()); err != nil {
+			return "C06-RECONFIGURE-CONFIG-FAILED " + err.Error()
+		}
+		for _, dbg := range []bool{false, true} {
+			for _, m := range []*cors.Middleware{m1, m2, m3, m4} {
+				m.SetDebug(dbg)
+			}
+			for _, rq := range rqs {
+				a := runRequest(m1, rq)
+				for k, m := range []*cors.Middleware{m2, m3, m4} {
+					if b := runRequest(m, rq); a != b {
+						return "C06-RESPONSES-DIFFER variant=" + []string{"from-Config()", "zero+Reconfigure", "Reconfigure(Config())"}[k] + " first=" + a + " other=" + b
+					}
+				}
+			}
+		}
+		cfg2 := m2.Config()
+		m5, err := cors.NewMiddleware(*cfg2)
+		if err != nil {
+			return "C06-SECOND-ROUND-TRIP-REJECTED " + err.Error()
+		}
+		if cfg3 := m5.Config(); !reflect.DeepEqual(cfg2, cfg3) {
+			return "C06-CONFIG-NOT-STABLE " + encConfig(cfg2) + " then " + encConfig(cfg3)
+		}
+		return "ok"
+	}))
+}
